@@ -15,11 +15,10 @@ Exact-arithmetic theorems (any linearly ordered field with floor) about `Retro.R
                           vertices, with the split point on the long edge
 In exact arithmetic there is no tolerance band; the 0.001 px band of the property is only needed
 for f32 edge stepping and is applied in the correspondence check.
-PARTIAL: the last step from the per-trapezoid characterisation to "centre inside the triangle by
-the edge-function test" (`trifill_iff_inside`) and its corollaries (vertex-order independence,
-shared-edge partition) is not proved here; the edge-function oracle `Retro.Spec.Raster.classify`
-decides it per case on the implementation's own output. Coordinates are assumed ≥ −½ in y
-(negative coordinates are the recorded finding `negative-screen-coordinate`).
+The step from this per-trapezoid characterisation to "centre inside the triangle by the three-edge-
+function test" and its corollaries is proved in `Slice.lean` (slice rule), `Order.lean` (vertex-order
+independence) and `Edge.lean` (`trifill_covers_iff_inside`, shared-edge partition). Coordinates are
+assumed ≥ −½ in y (negative coordinates are the recorded finding `negative-screen-coordinate`).
 -/
 import Retro.Lemmas.Raster
 
